@@ -15,10 +15,19 @@
 // replaced from here).
 //
 // Trace line:  OP ; OUTS ; OBS
-//   OP    H <opts> | U <opts> | SU e | SD e | P e b | X ctx | C
-//         <opts> = default nmes {name N | name L r d k ep*k} F nf ep*nf
-//   OUTS  E code D n {ep ok}*n R call W ms
-//   OBS   M n {name cur k {id prio st}*k} Q n {ep id open ready} DEF d RT n {ctx P | ctx ep id open} O n id*n G census
+//
+//	OP    H <opts> | U <opts> | UB <opts> K e | SU e | SD e | P e b | X ctx | C
+//	      UB: an update whose first DialFunc call BLOCKS (UpdateMultiEndpoints holds gme.mu)
+//	      while the server of the kept endpoint e goes down and comes back (its monitor
+//	      parks in notify with the outage report); then the dial is released.  The line is
+//	      written when the monitors are quiescent again and every MultiEndpoint knows the final
+//	      readiness (bounded by 3 s; given up 0.5 s after every monitor is idle in
+//	      WaitForStateChange with the report still missing), followed by a
+//	      `P e 1` line: a lost transition shows as a MultiEndpoint that does not know that
+//	      the pool of e is READY.
+//	      <opts> = default nmes {name N | name L r d k ep*k} F nf ep*nf
+//	OUTS  E code D n {ep ok}*n R call W ms
+//	OBS   M n {name cur k {id prio st}*k} Q n {ep id open ready} DEF d RT n {ctx P | ctx ep id open} O n id*n G census
 package grpcgcp
 
 import (
@@ -145,6 +154,8 @@ func (o vgOp) String() string {
 	switch o.kind {
 	case "H", "U":
 		return o.kind + " " + o.opts.String()
+	case "UB":
+		return fmt.Sprintf("UB %s K %d", o.opts.String(), o.e)
 	case "SU", "SD":
 		return fmt.Sprintf("%s %d", o.kind, o.e)
 	case "P":
@@ -241,6 +252,16 @@ func vgParseOp(line string) (vgOp, bool, error) {
 			return vgOp{}, false, err
 		}
 		return vgOp{kind: t[0], opts: o}, true, nil
+	case "UB":
+		if len(t) < 4 || t[len(t)-2] != "K" {
+			return vgOp{}, false, errors.New("bad op: " + line)
+		}
+		o, err := vgParseOpts(t[1 : len(t)-2])
+		if err != nil {
+			return vgOp{}, false, err
+		}
+		e, err := strconv.Atoi(t[len(t)-1])
+		return vgOp{kind: "UB", opts: o, e: e}, true, err
 	case "SU", "SD":
 		if len(t) != 2 {
 			return vgOp{}, false, errors.New("bad op: " + line)
@@ -370,6 +391,41 @@ func vgCensus() int {
 	return c
 }
 
+func vgStacks() []string {
+	buf := make([]byte, 1<<18)
+	for {
+		n := runtime.Stack(buf, true)
+		if n < len(buf) {
+			buf = buf[:n]
+			break
+		}
+		buf = make([]byte, 2*len(buf))
+	}
+	return strings.Split(string(buf), "\n\n")
+}
+
+// some pool monitor is blocked in notify() on the read lock of GCPMultiEndpoint.mu
+func vgMonitorParked() bool {
+	for _, g := range vgStacks() {
+		if strings.Contains(g, "(*monitoredConn).notify") && strings.Contains(g, "RLock") {
+			return true
+		}
+	}
+	return false
+}
+
+// every pool monitor sits in WaitForStateChange (none is about to deliver a report)
+func vgMonitorsQuiescent() bool {
+	for _, g := range vgStacks() {
+		if strings.Contains(g, "(*monitoredConn).monitor") || strings.Contains(g, "grpcgcp.newMonitoredConn") {
+			if strings.Contains(g, "(*monitoredConn).notify") || !strings.Contains(g, "WaitForStateChange") {
+				return false
+			}
+		}
+	}
+	return true
+}
+
 // ---------------------------------------------------------------- runner
 type vgRun struct {
 	w      *bufio.Writer
@@ -381,6 +437,10 @@ type vgRun struct {
 	outD   []string
 	waited int64
 	nlines int
+	// blocked dial (UB): the next DialFunc call signals `blocked` and waits for `release`
+	blockNext bool
+	blocked   chan struct{}
+	release   chan struct{}
 }
 
 func (r *vgRun) dialFunc(ctx context.Context, target string, dopts ...grpc.DialOption) (*grpc.ClientConn, error) {
@@ -390,6 +450,11 @@ func (r *vgRun) dialFunc(ctx context.Context, target string, dopts ...grpc.DialO
 	fail := vgFails[target]
 	vgAdmit[target] = false
 	vgMu.Unlock()
+	if r.blockNext {
+		r.blockNext = false
+		r.blocked <- struct{}{}
+		<-r.release
+	}
 	if fail {
 		r.outD = append(r.outD, fmt.Sprintf("%d 0", vgEPID(target)))
 		return nil, vgDialErr
@@ -714,6 +779,82 @@ func (r *vgRun) update(o vgOp) (code int) {
 	return vgErrCode(r.gme.UpdateMultiEndpoints(opts))
 }
 
+// UB: update with a blocked dial and a down/up flap of the kept endpoint o.e while gme.mu is held
+func (r *vgRun) updateBlocked(o vgOp) {
+	ep := vgEPName(o.e)
+	mc := r.poolOpen(ep)
+	vgMu.Lock()
+	up := vgUp[ep]
+	vgMu.Unlock()
+	flap := mc != nil && up && mc.conn.GetState() == connectivity.Ready
+	r.blocked = make(chan struct{}, 1)
+	r.release = make(chan struct{})
+	r.blockNext = true
+	done := make(chan int, 1)
+	go func() { done <- r.update(vgOp{kind: "U", opts: o.opts}) }()
+	code := -1
+	flapped := false
+	select {
+	case code = <-done: // no dial was needed (or the options were rejected): nothing held the lock
+	case <-r.blocked:
+		if flap {
+			flapped = true
+			vgStopServer(ep)
+			t0 := time.Now()
+			for time.Since(t0) < 3*time.Second && mc.conn.GetState() == connectivity.Ready {
+				time.Sleep(200 * time.Microsecond)
+			}
+			// the monitor has seen the outage and waits for gme.mu in notify
+			t1 := time.Now()
+			for time.Since(t1) < time.Second && !vgMonitorParked() {
+				time.Sleep(500 * time.Microsecond)
+			}
+			vgStartServer(ep)
+			t2 := time.Now()
+			for time.Since(t2) < 3*time.Second && mc.conn.GetState() != connectivity.Ready {
+				mc.conn.ResetConnectBackoff()
+				mc.conn.Connect()
+				time.Sleep(time.Millisecond)
+			}
+		}
+		close(r.release)
+		code = <-done
+	}
+	r.blockNext = false
+	if flapped {
+		// "follows within bounded time": the monitors are quiescent and every MultiEndpoint
+		// containing the endpoint knows the final readiness of its pool
+		t0 := time.Now()
+		var stuck time.Time // since when: all monitors idle in WaitForStateChange, report still missing
+		for time.Since(t0) < 3*time.Second {
+			want := mc.conn.GetState() == connectivity.Ready
+			q := vgMonitorsQuiescent()
+			if q && r.delivered(ep, want) {
+				break
+			}
+			if !q {
+				stuck = time.Time{}
+			} else if stuck.IsZero() {
+				stuck = time.Now()
+			} else if time.Since(stuck) > 500*time.Millisecond {
+				// nobody is going to deliver anything any more: the transition is lost
+				break
+			}
+			time.Sleep(500 * time.Microsecond)
+		}
+		r.waited = int64(time.Since(t0) / time.Millisecond)
+	}
+	r.emit(o, code, 0)
+	if flapped && r.poolOpen(ep) != nil {
+		b := 0
+		if mc.conn.GetState() == connectivity.Ready {
+			b = 1
+		}
+		r.emit(vgOp{kind: "P", e: o.e, b: b}, 0, 0)
+	}
+	r.admitNew()
+}
+
 func (r *vgRun) call(c int) (res int) {
 	defer func() {
 		if recover() != nil {
@@ -761,6 +902,11 @@ func (r *vgRun) runHistory(h []vgOp) {
 			code := r.update(o)
 			r.emit(o, code, 0)
 			r.admitNew()
+		case "UB":
+			if r.gme == nil || r.closed {
+				return
+			}
+			r.updateBlocked(o)
 		case "SU":
 			ep := vgEPName(o.e)
 			r.emit(o, 0, 0)
@@ -984,13 +1130,32 @@ func vgGenHistory(g *vgRng, maxOps int, livePct int) []vgOp {
 	if live && n > 14 {
 		n = 14
 	}
+	upSet := map[int]bool{}
 	for i := 0; i < n; i++ {
 		x := g.intn(100)
 		switch {
-		case live && x < 30:
-			h = append(h, vgOp{kind: "SU", e: 1 + g.intn(nEP)})
-		case live && x < 45:
-			h = append(h, vgOp{kind: "SD", e: 1 + g.intn(nEP)})
+		case live && x < 28:
+			e := 1 + g.intn(nEP)
+			upSet[e] = true
+			h = append(h, vgOp{kind: "SU", e: e})
+		case live && x < 40:
+			e := 1 + g.intn(nEP)
+			delete(upSet, e)
+			h = append(h, vgOp{kind: "SD", e: e})
+		case live && x < 50 && prev != nil:
+			// blocked update with a flap of a kept endpoint that is (probably) READY
+			var cands []int
+			for _, e := range vgMentioned(prev) {
+				if upSet[e] {
+					cands = append(cands, e)
+				}
+			}
+			if len(cands) == 0 {
+				continue
+			}
+			o := vgAddFresh(g, prev)
+			h = append(h, vgOp{kind: "UB", opts: o, e: cands[g.intn(len(cands))]})
+			prev = o
 		case live && x < 60:
 			c := vgProbes[g.intn(len(vgProbes))]
 			h = append(h, vgOp{kind: "X", e: c})
@@ -1001,6 +1166,95 @@ func vgGenHistory(g *vgRng, maxOps int, livePct int) []vgOp {
 				prev = o
 			}
 		}
+	}
+	if g.pct(75) {
+		h = append(h, vgOp{kind: "C"})
+	}
+	return h
+}
+
+func vgMentioned(o *vgOpts) []int {
+	var out []int
+	for _, m := range o.mes {
+		out = append(out, m.eps...)
+	}
+	return vgDedup(out)
+}
+
+func vgCopyOpts(o *vgOpts) *vgOpts {
+	c := &vgOpts{def: o.def}
+	for _, m := range o.mes {
+		c.mes = append(c.mes, vgME{name: m.name, r: m.r, d: m.d, eps: append([]int{}, m.eps...)})
+	}
+	return c
+}
+
+// the same (valid) options plus one endpoint that has no pool yet, so that the update must dial
+func vgAddFresh(g *vgRng, prev *vgOpts) *vgOpts {
+	o := vgCopyOpts(prev)
+	used := map[int]bool{}
+	for _, e := range vgMentioned(prev) {
+		used[e] = true
+	}
+	f := 1
+	for used[f] {
+		f++
+	}
+	if g.pct(50) || len(o.mes) >= 4 {
+		k := g.intn(len(o.mes))
+		if g.pct(50) {
+			o.mes[k].eps = append(o.mes[k].eps, f)
+		} else {
+			o.mes[k].eps = append([]int{f}, o.mes[k].eps...)
+		}
+	} else {
+		usedN := map[int]bool{}
+		for _, m := range o.mes {
+			usedN[m.name] = true
+		}
+		n := 0
+		for usedN[n] {
+			n++
+		}
+		o.mes = append(o.mes, vgME{name: n, eps: []int{f, vgMentioned(prev)[0]}})
+	}
+	return o
+}
+
+// dedicated scenario: two or three MultiEndpoints over shared live endpoints, then updates
+// whose dial blocks while a kept endpoint goes down and comes back
+func vgGenFlapScenario(g *vgRng) []vgOp {
+	eps := vgPickDistinct(g, 2+g.intn(2), 4)
+	a, b := eps[0], eps[1]
+	o := &vgOpts{def: 1, mes: []vgME{{name: 1, eps: []int{a, b}}, {name: 2, eps: []int{b, a}}}}
+	if len(eps) > 2 {
+		o.mes = append(o.mes, vgME{name: 3, eps: []int{eps[2], a}})
+	}
+	if g.pct(30) {
+		o.def = 2
+	}
+	h := []vgOp{{kind: "H", opts: o}}
+	ups := []int{a}
+	if g.pct(70) {
+		ups = append(ups, b)
+	}
+	if g.pct(50) {
+		ups[0], ups[len(ups)-1] = ups[len(ups)-1], ups[0]
+	}
+	for _, e := range ups {
+		h = append(h, vgOp{kind: "SU", e: e})
+	}
+	prev := o
+	rounds := 1 + g.intn(2)
+	for i := 0; i < rounds; i++ {
+		nx := vgAddFresh(g, prev)
+		h = append(h, vgOp{kind: "UB", opts: nx, e: ups[g.intn(len(ups))]})
+		prev = nx
+		h = append(h, vgOp{kind: "X", e: vgProbes[g.intn(4)]})
+	}
+	if g.pct(40) {
+		h = append(h, vgOp{kind: "SD", e: ups[0]})
+		h = append(h, vgOp{kind: "X", e: -1})
 	}
 	if g.pct(75) {
 		h = append(h, vgOp{kind: "C"})
@@ -1056,6 +1310,10 @@ func TestVerifGME(t *testing.T) {
 	maxOps := vgEnvInt("VERIF_MAXOPS", 10)
 	live := vgEnvInt("VERIF_LIVE", 20)
 	t0 := time.Now()
+	nflap := vgEnvInt("VERIF_FLAP", 0)
+	for i := 0; i < nflap; i++ {
+		r.runHistory(vgGenFlapScenario(g))
+	}
 	for i := 0; i < n; i++ {
 		r.runHistory(vgGenHistory(g, maxOps, live))
 	}
